@@ -17,6 +17,11 @@ CLAIMS = {
         technique='differential symbolic execution (CrossHair/z3): compiled render function vs reference TALES interpreter; leaf outcomes (value / exception class) symbolic',
         text='Per enumerated expression shape x site the solver decides, for every combination of leaf outcomes, equality of output, raised exception class and ordered call log with the reference TALES semantics.',
         note=G_NOTE),
+    'C05': dict(
+        engine='G+X', level='translation_validation', design_ref='DESIGN.md 4 C05',
+        technique='differential symbolic execution (CrossHair/z3) of scoping templates vs reference scope stack; symbolic operation sequences on utils.Scope vs two-level model; symbolic names through the reserved-name predicate',
+        text='Per scoping template the solver decides visibility probes for every initial binding state; Scope operations and the reserved-name predicate are decided for all operation codes/keys/values resp. all code points within the bound.',
+        note=G_NOTE),
     'C03': dict(
         engine='X+Z', level='model_checking', design_ref='DESIGN.md 4 C03',
         technique='symbolic execution (CrossHair/z3) of iter_xml/match_tag/emitters on shape-enumerated character-symbolic strings; z3 regex inclusion from the live lexer pattern',
